@@ -458,3 +458,22 @@ N("dlin-knuth-hoisted-top", ["C14", "C03"],
 N("dlin-div-len-locals", ["C14", "C12"],
   [("src/algorithms/div/mod.rs", "    if numerator.len() < divisor.len() {\n        let (remainder, padding) = divisor.split_at_mut(numerator.len());",
     "    let nl = numerator.len();\n    if nl < divisor.len() {\n        let (remainder, padding) = divisor.split_at_mut(nl);")])
+_SIG_OLD = "    let i = divisor\n        .iter()\n        .rposition(|&x| x != 0)\n        .expect(\"Divisor is zero\");\n    let divisor = &mut divisor[..=i];\n"
+_SIG_NEW = "    let dl = sig_len(divisor).expect(\"Divisor is zero\");\n    let divisor = &mut divisor[..dl];\n"
+_SIG_FN = "#[inline]\nfn sig_len(limbs: &[u64]) -> Option<usize> {\n    limbs.iter().rposition(|&limb| limb != 0).map(|i| i + %d)\n}\n\n#[cfg(test)]\nmod tests {\n    use super::*;\n    use crate::aliases::U512;\n"
+N("dlin-div-helper-significant-len", ["C14", "C03"],
+  [("src/algorithms/div/mod.rs", _SIG_OLD, _SIG_NEW),
+   ("src/algorithms/div/mod.rs", "#[cfg(test)]\nmod tests {\n    use super::*;\n    use crate::aliases::U512;\n", _SIG_FN % 1)])
+B("dlin-div-helper-significant-len-plus-two", ["C14", "C03"],
+  [("src/algorithms/div/mod.rs", _SIG_OLD, _SIG_NEW),
+   ("src/algorithms/div/mod.rs", "#[cfg(test)]\nmod tests {\n    use super::*;\n    use crate::aliases::U512;\n", _SIG_FN % 2)], "div")
+N("dlin-div-match-on-len", ["C14", "C12"],
+  [("src/algorithms/div/mod.rs", "    if divisor.len() <= 2 {\n        if divisor.len() == 1 {", "    if divisor.len() < 3 {\n        if divisor.len() < 2 {")])
+# ---- R-CODEC/rlp-length
+B("rlp-length-threshold-8-bits", ["C16"],
+  [("src/support/alloy_rlp.rs", "        let bits = self.bit_len();\n        if bits <= 7 {\n            1", "        let bits = self.bit_len();\n        if bits <= 8 {\n            1")],
+  "rlp-length")
+N("rlp-length-threshold-lt-8", ["C16"],
+  [("src/support/alloy_rlp.rs", "        let bits = self.bit_len();\n        if bits <= 7 {\n            1", "        let bits = self.bit_len();\n        if bits < 8 {\n            1")])
+B("rlp-length-forgot-header-byte", ["C16"],
+  [("src/support/fastrlp_03.rs", "            bytes + length_of_length(bytes)\n", "            bytes + length_of_length(bytes) - 1\n")], "rlp-length")
